@@ -100,6 +100,10 @@ def r10_1_cut_report_pairing(repo: Repo, rep: Report):
         blk = m3.parents[conts[0]]
         ok = any(isinstance(c, ast.Call) and call_name(c) == "error" and "get_stuck_reason()" in src(c) for s in blk.body for c in ast.walk(s))
     rep.check("R10.1", ok, m3, conts[0] if conts else cf, "if subcall.is_stuck(): error(...); continue", "a stuck target call must be reported before it is skipped")
+    # no other skip may come first: every other `continue` of the post-state loop is reached only for non-stuck calls
+    others = [c for c in body_walk(cf) if isinstance(c, ast.Continue) and c not in conts]
+    late = [c for c in others if "not (subcall.is_stuck())" not in guard_set(m3, c)]
+    rep.check("R10.1", not late, m3, late[0] if late else cf, f"{len(others)} other skips are all guarded by `not subcall.is_stuck()`", "a post-state can be skipped (e.g. as an ordinary revert) before the stuck check: an unsupported feature in a target call goes unreported")
     _, rtc = repo.fn("__main__.run_target_contract")
     hs = [h for t in body_walk(rtc) if isinstance(t, ast.Try) for h in t.handlers]
     ok = bool(hs) and all(any(isinstance(c, ast.Call) and call_name(c) == "error" for c in ast.walk(h)) for h in hs)
